@@ -113,6 +113,8 @@ Emit == PrintT(ToJson(g))
 
 \* the size ladder is effective: the stream built for (array, granularity) is cut there
 LadderLaw == (g.kind = "spz" /\ g.la # "") => Split(g.hdr, g.la, g.lg)
+\* the fractional-bit counts tried cover the ladder the layout model names, inside the declared range of the field
+FbLaw == FbLadderSet \subseteq FbLadder /\ FbLadder \subseteq 0..255
 \* the boundary-value streams really contain the whole ladder in every coordinate
 EdgeLaw == (g.kind = "spz" /\ g.pat = "edge" /\ g.hdr[2] >= 14 /\ g.hdr[2] % 3 = 0) =>
     LET h == g.hdr
